@@ -103,3 +103,12 @@ def check_c19(ctx):
     cov["periods_by_cm_uf_wd_rd"] = {f"cm={k[0]},uf={k[1]},wd={k[2]},rd={k[3]}": k[4] for k in sorted(periods)}
     return viols, cov, ["the period is the closed form of Aupy & Herrmann (2017) as transcribed in GWForm.tla",
                         "'more than m steps remain' is read on the N-1 step chain of the Aupy-Herrmann model"]
+
+
+def gen_drift(ctx, nmax):
+    """Implementation traces against the binomial generator model (diagnostic only)."""
+    cfgs = boxes.multistage(nmax)
+    traces = record.record_many(cfgs)
+    verdicts = fw.validate(ctx, traces, module="TraceGenBinomial")
+    drift = [fw.describe(t) for t, v in zip(traces, verdicts) if any(c == "GEN.drift" for c, _, _ in v["viol"])]
+    return {"model": "GenBinomialCore", "traces": len(traces), "drifting": len(drift), "examples": drift[:5]}
